@@ -107,6 +107,23 @@ def processLine (a : AccSt) (toks : List String) : Except String AccSt :=
        | none => .error "model exploration budget exceeded"
        | some q => .ok { a with ws := q.eraseDups, steps := a.steps + 1, maxSet := max a.maxSet q.length })
     | _, _ => .error "bad burst"
+  | ["act", k, "ownc"] =>
+    -- a submission whose own context is ALREADY done: the call and the cancellation happen before any step of the new thread
+    let call : Option Act := if k == "do" then some (.callDo .own) else if k == "try" then some (.callTry .own) else none
+    match call with
+    | none => .error "bad act"
+    | some call =>
+      let ws1 := a.ws.filterMap (fun w =>
+        match step a.P 0 w.g .idle call with
+        | none => none
+        | some (g', l', _) =>
+          match step a.P 0 g' .idle (.cancelTask w.g.tasks.length) with
+          | none => none
+          | some (g'', _, _) => some (canon { g := g'', ths := l' :: w.ths, rets := w.rets }))
+      if ws1.isEmpty then .error "action is not enabled in any candidate model state" else
+      match closure a.P ws1 with
+      | none => .error "model exploration budget exceeded"
+      | some q => .ok { a with ws := q.eraseDups, steps := a.steps + 1, maxSet := max a.maxSet q.length }
   | "act" :: rest =>
     let act : Option Act := match rest with
       | ["do", c] => (ctxOf c).map Act.callDo
